@@ -1,17 +1,21 @@
 % C09: interpreter for update histories over the dynamic predicate c09p/2.
+:- use_module(library(lists)).
+:- use_module(library(iso_ext)).
 :- dynamic(c09p/2).
-:- dynamic(c09log/1).
+% The event log must not touch the clause database (an assertz of a log entry would advance the
+% global update clock between a cursor's call and the updates under test): it is kept in a
+% non-backtrackable global variable.
+c09_reset :- retractall(c09p(_,_)), bb_put(c09log, []).
 
-c09_reset :- retractall(c09p(_,_)), retractall(c09log(_)).
-
-c09_log(X) :- assertz(c09log(X)).
+c09_log(X) :- bb_get(c09log, L), bb_put(c09log, [X|L]).
 
 c09_run(Steps, Log) :-
     c09_reset,
     c09_steps(Steps),
     findall(I, c09p(_, I), Final),
     c09_log(final(Final)),
-    findall(E, c09log(E), Log).
+    bb_get(c09log, RLog),
+    reverse(RLog, Log).
 
 c09_steps([]).
 c09_steps([S|Ss]) :- ( c09_step(S) -> true ; c09_log(step_failed) ), c09_steps(Ss).
